@@ -370,6 +370,7 @@ NON_OPTIONAL_RETURNS: set = set()
 _BUILTIN_CALLABLES = {"int", "str", "float", "bytes", "bool", "list", "dict", "tuple", "set", "frozenset", "bytearray", "len", "repr", "abs", "sorted", "min", "max", "sum", "type",
                       "isinstance", "issubclass", "iter", "next", "range", "enumerate", "zip", "map", "filter", "print", "hash", "id", "callable", "getattr", "setattr", "hasattr",
                       "b64decode", "b64encode", "isoparse", "deepcopy"}
+MODULE_CLASSES: set = set()     # names of the classes defined at the top of the module under analysis
 MODULE_DEFS: set = set()        # qualified names defined in the module under analysis (filled by the interpreter)
 METHOD_NAMES: set = set()       # names defined as methods of some class of the module
 DATA_ATTR_NAMES: set = set()    # names that are (also) assigned as data attributes / class variables
@@ -390,6 +391,8 @@ def never_none(s: Sym) -> bool:
     if s[0] == "call":
         if s[1][0] == "n" and s[1][1] in _NOT_NONE_CALLS:
             return True
+        if s[1][0] == "n" and s[1][1] in MODULE_CLASSES:
+            return True         # constructing an object of a class of the analysed module
         # functions / methods of the analysed module that are annotated to return a plain scalar type
         base = s[1][1] if s[1][0] == "n" else (s[1][2] if s[1][0] == "a" else None)
         return base in NON_OPTIONAL_RETURNS
